@@ -149,13 +149,12 @@ func (c *SumCopyCommand) sumCopyItem(item string, tow io.Writer) error {
 			"retry reading input files before copying")
 	}
 
-	srcPlDif, destPlDif := srcTsList.Diff(destTsList)
-	if srcPlDif.AllEmpty() && destPlDif.AllEmpty() {
-		return nil
-	}
-
-	if err := updateFileDataWithPointsList(destDB, srcPlDif, now); err != nil {
+	srcPlDif, err := updateFileDataWithDiff(destDB, srcTsList, c.ArchiveID, c.From, until, now, true)
+	if err != nil {
 		return err
+	}
+	if srcPlDif.AllEmpty() {
+		return nil
 	}
 
 	if err := printFileData(tow, srcHeader, srcPlDif, true); err != nil {
